@@ -105,7 +105,16 @@ def run_check(prop, tier, replay=None):
         results = core.run_cases(type(prop).runner, cases, timeout=prop.timeout, isolate=prop.isolate)
         recs = prop.records(cases, results)
         mod, cfg = prop.trace
-        fails, tstats = core.judge(mod, cfg, recs, timeout=prop.judge_timeout, group_key=prop.group_key)
+        # records may ask for another configuration of the same trace module (scaled world: B = 2)
+        bycfg = {}
+        for r in recs:
+            bycfg.setdefault(r.pop("_cfg", cfg), []).append(r)
+        fails, tstats = [], {"states": 0, "transitions": 0, "shards": 0, "cmd": ""}
+        for c2, rs2 in bycfg.items():
+            f2, t2 = core.judge(mod, c2, rs2, timeout=prop.judge_timeout, group_key=prop.group_key)
+            fails += f2
+            tstats = {"states": tstats["states"] + t2["states"], "transitions": tstats["transitions"] + t2["transitions"],
+                      "shards": tstats["shards"] + t2["shards"], "cmd": tstats["cmd"] or t2["cmd"]}
     except Machinery as ex:
         print("MACHINERY-FAILURE property=%s %s" % (pid, ex))
         core.cleanup_tmproot()
